@@ -3,23 +3,74 @@
 // One case = one whole scenario: the schedule of process / timer / network steps that was executed on the REAL
 // NodeActors (input) and, per step, the events they published, the GossipMessages they sent and the full state of the
 // touched nodes (output).  coq/Cluster/GossipRun.v replays the schedule on the model and must print the same.
+//
+// The NodeActor draws from math/rand's global generator (rand.Shuffle of the seeds in tryJoinSeeds and of the gossip
+// targets). So that a run is a function of -seed, the harness re-seeds that generator at the start of every scenario;
+// since Go 1.24 rand.Seed only has an effect with the setting below.
+//
+//go:debug randseednop=0
 package main
 
 import (
 	"fmt"
+	mrand "math/rand"
 	"os"
+	"strings"
 
 	"github.com/kercylan98/vivid/xverif/lib"
 )
+
+// Monitor hits are aggregated over the whole run by (monitor, cause prefix): one reported hit per class, carrying
+// the first occurrence and the number of scenarios, so that no class can be crowded out of the report.
+type hitClass struct {
+	name, detail string
+	c            lib.T
+	n            int
+}
+
+var (
+	classes    = map[string]*hitClass{}
+	classOrder []string
+)
+
+func record(o *lib.Out, c lib.T, h hit) {
+	pre := h.detail
+	if i := strings.IndexAny(pre, ":;"); i >= 0 {
+		pre = pre[:i]
+		if pre == "consequence-of" {
+			if j := strings.Index(h.detail, ";"); j >= 0 {
+				pre = h.detail[:j]
+			}
+		}
+	}
+	k := h.name + "|" + pre
+	if cl := classes[k]; cl != nil {
+		cl.n++
+		return
+	}
+	classes[k] = &hitClass{h.name, h.detail, c, 1}
+	classOrder = append(classOrder, k)
+	o.Stats["hit-class:"+k]++
+}
+
+func flushHits(o *lib.Out) {
+	for _, k := range classOrder {
+		cl := classes[k]
+		o.Monitor(cl.name, cl.c, fmt.Sprintf("%s [this class of hit occurred in %d scenarios of this run]", cl.detail, cl.n))
+	}
+}
 
 func emit(o *lib.Out, kind string, idx int, s *Sim, hits []hit) {
 	in, out := s.Case()
 	o.Case(kind, len(s.steps) > 10, in, out)
 	o.Stats["steps"] += len(s.steps)
 	for _, h := range hits {
-		o.Monitor(h.name, lib.L(lib.S(kind), lib.NI(idx)), h.detail)
+		record(o, lib.L(lib.S(kind), lib.NI(idx)), h)
 	}
 }
+
+// reseed makes the global math/rand generator (used inside internal/cluster) a function of the harness seed.
+func reseed(r *lib.Rand) { mrand.Seed(int64(r.U64() >> 1)) } //nolint:staticcheck
 
 func main() {
 	f := lib.ParseFlags()
@@ -27,11 +78,23 @@ func main() {
 	r := lib.NewRand(f.Seed)
 	thorough := f.Tier == "thorough"
 
+	// short scenarios first (small enough for the in-Coq vm_compute cross-check of the extracted model)
+	nMini := 32
+	if thorough {
+		nMini = 800
+	}
+	for i := 0; i < nMini; i++ {
+		reseed(r)
+		s := miniScenario(r.Fork())
+		emit(o, "scenario-mini", i, s, nil)
+	}
+
+	reseed(r)
 	witnesses(o)
 
 	n := map[string]int{"join": 45, "restart": 12, "leave": 8, "fd": 25}
 	if thorough {
-		n = map[string]int{"join": 1500, "restart": 400, "leave": 200, "fd": 700}
+		n = map[string]int{"join": 900, "restart": 240, "leave": 160, "fd": 500}
 	}
 	if f.N > 0 {
 		n = map[string]int{"join": f.N, "restart": f.N / 4, "leave": f.N / 4, "fd": f.N / 2}
@@ -40,6 +103,7 @@ func main() {
 	for _, class := range []string{"join", "restart", "leave", "fd"} {
 		for i := 0; i < n[class]; i++ {
 			idx++
+			reseed(r)
 			s, sc, hits := randomScenario(r.Fork(), idx, class, i%5 == 4)
 			emit(o, "scenario-"+class, idx, s, hits)
 			o.Stats[fmt.Sprintf("nodes=%d", len(sc.s.nodes)+len(sc.stopped))]++
@@ -48,6 +112,7 @@ func main() {
 			}
 		}
 	}
+	flushHits(o)
 	o.Close(f.Report)
 	if len(o.Monitors) > 0 {
 		os.Exit(3)
